@@ -1,4 +1,4 @@
-import MetadorModel.Proofs.RecordReopen
+import MetadorModel.Proofs.RecordGood
 /-!
 # C03 — Closing and reopening a record reproduces exactly the same view; open-mode contract
 
@@ -144,6 +144,7 @@ theorem reopen_same_view (s : State) (hg : Good s) (c cls : Bool) (t : Target) (
     (hm : m = .r ∨ m = .rp ∨ m = .a)
     (ht : (∃ paths, t = .list paths ∧ paths.Perm (fileNames s.h)) ∨
           (∃ n paths, t = .name n ∧ findFiles (names s.disk) n = some paths ∧ paths.Perm (fileNames s.h)))
+    (hmf : cls = true → ManifestOk s.disk s.h.files)
     (hfresh : m ≠ .r → NextPatchFree s) :
     (close s c).out = .ok ∧ (openRec (close s c).st cls t m).out = .ok ∧
     view (openRec (close s c).st cls t m).st = view s := by
@@ -154,7 +155,7 @@ theorem reopen_same_view (s : State) (hg : Good s) (c cls : Bool) (t : Target) (
   have key : ∀ paths, paths.Perm (fileNames s.h) → Resolves (close s c).st.disk t paths →
       (openRec (close s c).st cls t m).out = .ok ∧ view (openRec (close s c).st cls t m).st = view s := by
     intro paths hperm hres
-    have := reopen_closed s _ files' hcl cls t m paths hres (by rw [hcl.sameNames]; exact hperm) hm hfresh
+    have := reopen_closed s _ files' hcl cls t m paths hres (by rw [hcl.sameNames]; exact hperm) hm hmf hfresh
     exact ⟨this.1, by rw [this.2, hcl.sameView]⟩
   have hnonempty : ∀ paths : List Name, paths.Perm (fileNames s.h) → paths ≠ [] := by
     intro paths hp h
@@ -170,6 +171,61 @@ theorem reopen_same_view (s : State) (hg : Good s) (c cls : Bool) (t : Target) (
       rw [hcl.found n]
       exact hfind
     · cases hfind
+
+/-- **the handle is on a coherent chain along every history** of calls without `w` /
+`delete_files` (invariant `Good0`: C02's `Inv`, uuids drawn from the counter, coherent chain
+under an open handle, writable ⇒ patching allowed, patching allowed and nothing writable ⇒
+newest container committed). -/
+theorem coherent_along_histories (ops : List Op) (s : State) (hg : Good0 s)
+    (hsafe : ∀ o ∈ ops, o.safe = true) : Good0 (run s ops) := good0_run ops s hg hsafe
+
+theorem good_of_good0 {s : State} (hg : Good0 s) (hopen : s.h.closed = false) : Good s :=
+  ⟨hopen, hg.coh hopen, hg.inv, hg.rwAllow⟩
+
+/-- the manifest link of the newest container is trivially intact when it has no manifest
+extension (records written by the plain class; any uncommitted container) -/
+theorem manifestOk_of_no_ext {d : Disk} {files : List (Name × UB)}
+    (h : ∀ f ub, lastFile files = some (f, ub) → ub.ext = none) : ManifestOk d files := by
+  intro f ub u b hl he
+  rw [h f ub hl] at he; cases he
+
+/-- **reopen_same_view along histories**: start from the empty directory (or any state
+satisfying `Good0`), run *any* history of calls without `w` / `delete_files`; if the handle
+is open at the end, then `close()` followed by reopening in `r`, `r+` or `a`, by any
+permutation of the file list or by name, succeeds and shows the same view — for the plain
+class unconditionally; for `IH5MFRecord` provided the newest manifest link is intact
+(`ManifestOk`); for `r+`/`a` provided the next patch name is free; by name provided
+`find_files` returns the record's files. -/
+theorem reopen_same_view_history (ops : List Op) (s0 : State) (hg0 : Good0 s0)
+    (hsafe : ∀ o ∈ ops, o.safe = true) (hopen : (run s0 ops).h.closed = false)
+    (c cls : Bool) (t : Target) (m : Mode) (hm : m = .r ∨ m = .rp ∨ m = .a)
+    (ht : (∃ paths, t = .list paths ∧ paths.Perm (fileNames (run s0 ops).h)) ∨
+          (∃ n paths, t = .name n ∧ findFiles (names (run s0 ops).disk) n = some paths ∧
+            paths.Perm (fileNames (run s0 ops).h)))
+    (hmf : cls = true → ManifestOk (run s0 ops).disk (run s0 ops).h.files)
+    (hfresh : m ≠ .r → NextPatchFree (run s0 ops)) :
+    (close (run s0 ops) c).out = .ok ∧ (openRec (close (run s0 ops) c).st cls t m).out = .ok ∧
+    view (openRec (close (run s0 ops) c).st cls t m).st = view (run s0 ops) :=
+  reopen_same_view _ (good_of_good0 (good0_run ops s0 hg0 hsafe) hopen) c cls t m hm ht hmf hfresh
+
+/-- The statement without side conditions: along every history from the empty directory in
+which the record was created by name, reopening by name or by any permutation of the list,
+in `r`/`r+`/`a`, by either class, shows the same view. `reopen_same_view_history` proves it
+relative to three facts that are checked on every run by the correspondence harness but are
+not proved for all histories here: (1) `find_files` returns exactly the handle's files
+(needs the canonical-naming invariant and injectivity of the decimal rendering of patch
+indices), (2) the next patch name is free (same), (3) for `IH5MFRecord` the manifest link of
+the newest container is intact after `discard_patch` / class mixing (needs a global
+uuid-uniqueness invariant for manifests). -/
+def reopen_same_view_statement : Prop :=
+  ∀ (ops : List Op) (n : Name) (cls0 : Bool) (m0 : Mode), (∀ o ∈ ops, o.safe = true) →
+    (∀ o ∈ ops, ∀ c t m, o = Op.openRec c t m → c = cls0 ∧ t = .name n) →
+    let s := run {} (Op.openRec cls0 (.name n) m0 :: ops)
+    s.h.closed = false →
+    ∀ (c : Bool) (m : Mode), (m = .r ∨ m = .rp ∨ m = .a) →
+      ∀ t, (t = .name n ∨ ∃ paths, t = .list paths ∧ paths.Perm (fileNames s.h)) →
+        (close s c).out = .ok ∧ (openRec (close s c).st cls0 t m).out = .ok ∧
+        view (openRec (close s c).st cls0 t m).st = view s
 
 /-- **discard_returns_to_commit**: a patch that is created on a handle without writable
 container (i.e. right after a commit, or after opening a committed record), filled with any
@@ -209,5 +265,47 @@ theorem findFiles_disjoint (dir : List Name) (n m : Name) (hn : ValidName n) (hm
   · intro k
     have := h1 '.' ('p' :: (decimal k ++ ext)) (by decide)
     simpa [patchFile, infix_] using this
+
+/-! ## Non-vacuity: concrete states meet the hypotheses -/
+
+/-- `foo`, `foo2` -/
+def foo : Name := ['f', 'o', 'o']
+def foo2 : Name := ['f', 'o', 'o', '2']
+
+/-- create foo2 and foo (manifest class), two commits and an uncommitted third container -/
+def hist : List Op :=
+  [.openRec false (.name foo2) .x, .write 9, .close true,
+   .openRec true (.name foo) .x, .write 1, .commitPatch, .createPatch, .write 2, .commitPatch,
+   .createPatch, .write 3]
+
+example : ∀ o ∈ hist, o.safe = true := by decide
+example : (run {} hist).h.closed = false ∧ (fileNames (run {} hist).h).length = 3 ∧ view (run {} hist) = [1, 2, 3] := by
+  decide
+/-- `find_files foo` returns the three containers of foo and not `foo2.ih5` -/
+example : findFiles (names (run {} hist).disk) foo = some (fileNames (run {} hist).h) := by decide
+example : ValidName foo ∧ ValidName foo2 ∧ foo ≠ foo2 := by
+  refine ⟨⟨by decide, by decide⟩, ⟨by decide, by decide⟩, by decide⟩
+
+/-- instance of `reopen_same_view_history`: close with commit, reopen read-only with the plain
+class from the *reversed* file list -/
+example : view (openRec (close (run {} hist) true).st false (.list (fileNames (run {} hist).h).reverse) .r).st
+    = [1, 2, 3] := by
+  have h := reopen_same_view_history hist {} good0_init (by decide) (by decide) true false
+    (.list (fileNames (run {} hist).h).reverse) .r (Or.inl rfl)
+    (Or.inl ⟨_, rfl, List.reverse_perm _⟩) (by intro h; cases h) (by intro h; exact absurd rfl h)
+  rw [h.2.2]; decide
+
+/-- the mode laws have satisfiable premises: foo is *patched + uncommitted patch* after
+`hist` + close without commit, *absent* in the empty directory -/
+example : findFiles (names ({} : State).disk) foo = some [] := by decide
+example : (match openFiles (close (run {} hist) false).st.disk
+    [patchFile foo 2, baseFile foo, patchFile foo 1] true with
+    | .ok (files, b) => b && files.length == 3
+    | .error _ => false) = true := by decide
+example : (match openFiles (close (run {} hist) true).st.disk
+    [patchFile foo 2, baseFile foo, patchFile foo 1] true with
+    | .ok (files, b) => !b && files.length == 3
+    | .error _ => false) = true := by decide
+example : (createPatch (run {} (hist ++ [.commitPatch]))).out = .ok := by decide
 
 end MetadorModel.C03
